@@ -25,6 +25,7 @@ Definition caps_of_dat (order : nat) (d : dat) : caps :=
   | _ => fun _ => None
   end.
 
+Definition maxr_int_opt (d : dat) : option nat := match as_list d with [I k] => Some (Z.to_nat k) | _ => None end.
 Definition log_dat (l : list (nat * nat * M ZIring)) : dat :=
   L (map (fun e => let '(m, n, A) := e in dat_of_mat m n A) l).
 
